@@ -19,6 +19,9 @@ import (
 // raceMode widens the window between a run-once function's memo check and its store
 var raceMode bool
 
+// raceFailOnce: most converters are run-once and fail the first time their body runs
+var raceFailOnce bool
+
 var raceMu sync.Mutex // protects the harness's own bookkeeping inside function bodies
 
 // raceLogSize sums the sizes of the race detector's log files (GORACE=log_path=<prefix>).
@@ -84,6 +87,9 @@ func outcomeOf(sc *scenario, res am.Result, pan interface{}) string {
 func genRace(w *bufio.Writer, r *rng, id int, goroutines, rounds int) {
 	c := cfgGeneral
 	c.pOnce = 35
+	if raceFailOnce {
+		c.pOnce = 75
+	}
 	c.pFail = 0
 	c.forms = []string{"pos", "struct", "ptr"} // functions built with BuildFunc share their value sets by design
 	sc := genScenario(r, c)
@@ -95,7 +101,7 @@ func genRace(w *bufio.Writer, r *rng, id int, goroutines, rounds int) {
 	// now and then a run-once converter fails the first time its body runs (and would succeed the second time):
 	// its error is memoised, so every call that needs it must report that error
 	for _, f := range sc.Funcs[1:] {
-		if f.Once && r.chance(1, 3) {
+		if f.Once && (raceFailOnce || r.chance(1, 3)) {
 			f.HasErr, f.Script = true, "fail@0"
 		}
 	}
@@ -128,6 +134,9 @@ func genRace(w *bufio.Writer, r *rng, id int, goroutines, rounds int) {
 			seq[outcomeOf(sc, res, pan)] = true
 		}
 		sc.buildAll()
+		for _, f := range sc.Funcs {
+			f.execs = 0 // fresh objects: "first execution" scripts start over
+		}
 		shared = shared[:0]
 		for _, o := range sc.Opts[sc.Defaults:] {
 			shared = append(shared, sc.mkArg(o))
@@ -202,6 +211,15 @@ func genRace(w *bufio.Writer, r *rng, id int, goroutines, rounds int) {
 	}
 	if after <= before {
 		raceMode = false
+		// fresh objects first: the ones used concurrently carry whatever the concurrent phase memoised
+		sc.buildAll()
+		for _, f := range sc.Funcs {
+			f.execs = 0
+		}
+		shared = shared[:0]
+		for _, o := range sc.Opts[sc.Defaults:] {
+			shared = append(shared, sc.mkArg(o))
+		}
 		for i := 0; i < 1500 && unseen(); i++ {
 			seqRound()
 		}
